@@ -195,10 +195,23 @@ fn sched_reader(bytes: &[u8], s: crate::readers::Schedule) -> crate::readers::Sc
 
 /// Runs `f` with a private, empty scratch directory (for `Opts::debug`, which dumps event payloads into
 /// a directory) and removes it afterwards.
+/// How many more cases of this process may exercise `Opts::debug` (each writes one small file per event:
+/// cheap on a local disk, very slow on some sandbox file systems, so the total is bounded per run).
+pub static DEBUG_BUDGET: std::sync::atomic::AtomicI64 = std::sync::atomic::AtomicI64::new(600);
+pub fn debug_budget_take() -> bool {
+	DEBUG_BUDGET.fetch_sub(1, Ordering::Relaxed) > 0
+}
+
 pub fn with_debug_dir<T>(f: impl FnOnce(&std::path::Path) -> T) -> T {
 	static N: AtomicU64 = AtomicU64::new(0);
-	let base = std::env::var("PV_ROOT").map(std::path::PathBuf::from).unwrap_or_else(|_| std::path::PathBuf::from("/verif"));
-	let dir = base.join("work").join(format!("dbg-{}-{}", std::process::id(), N.fetch_add(1, Ordering::Relaxed)));
+	// a memory-backed directory when there is one, else the work directory of the checks
+	let shm = std::path::Path::new("/dev/shm");
+	let base = if shm.is_dir() && std::fs::create_dir_all(shm.join("pv-work")).is_ok() {
+		shm.join("pv-work")
+	} else {
+		std::env::var("PV_ROOT").map(std::path::PathBuf::from).unwrap_or_else(|_| std::path::PathBuf::from("/verif")).join("work")
+	};
+	let dir = base.join(format!("dbg-{}-{}", std::process::id(), N.fetch_add(1, Ordering::Relaxed)));
 	let _ = std::fs::create_dir_all(&dir);
 	let out = f(&dir);
 	let _ = std::fs::remove_dir_all(&dir);
